@@ -16,7 +16,7 @@ RULE = (
     "occupied slot without overwrite => refusal, slot unchanged) is advanced on every call and compared behaviourally "
     "after every call (get_metric at every occupied slot must return that variable bit-for-bit; refusals must raise and "
     "leave every slot as it was), and each history is replayed one variable at a time on a fresh Grid: get_metric at "
-    "every position must agree. A history ends at a refused multi-variable call (partial effects unspecified). Class = "
+    "every position must agree. A refused multi-variable call is held to the same equivalence: the variables listed before the refused one are registered, the rest are not. Class = "
     "(history length, per-call (#vars, overwrite, hits occupied slot, constructor?)); non-trivial iff some call names "
     "several variables or hits an occupied slot."
 )
@@ -201,11 +201,16 @@ def run_case(ctx, desc):
                         ctx.violation("refusal-leaves-registry", f"refused call {k} {call} changed what get_metric returns")
                         return
                 else:
-                    # partial effects of a refused multi-variable call on *other* slots are not fixed: only the refused slots
-                    if not check_registry(g, f"after refused call {k} (slots of {hits} must be unchanged)"):
+                    # "registering several variables in one call is equivalent to registering them one at a time, in
+                    # the same order": the variables listed before the first refused one are registered, the rest not
+                    for vn in call["vars"]:
+                        flat.append((call["axes"], vn, False))  # the replay refuses the same one and stops there too
+                        if slot(vn) in shadow:
+                            break
+                        shadow[slot(vn)] = vn
+                    if not check_registry(g, f"after refused call {k} {call['vars']} (variables before the refused one are registered, occupied slots unchanged)"):
                         return
-                    ended = k
-                    break
+                    continue
             else:
                 if raised is not None:
                     ctx.violation("registration-accepted", f"call {k} {call} raised {type(raised).__name__}: {str(raised)[:150]}")
@@ -222,12 +227,13 @@ def run_case(ctx, desc):
     # batching differential: the same registrations one at a time, same order, on a fresh Grid
     ctx.judged(("batching", len(hist), feats), any(f[0] > 1 for f in feats))
     g2 = Grid(ds, coords=cm, periodic=False, autoparse_metadata=False)
-    try:
-        for axes, vn, ow in flat:
-            g2.set_metrics(tuple(axes), vn, overwrite=True)
-    except Exception as e:
-        ctx.violation("batching-equivalence", f"one-at-a-time replay raised {type(e).__name__}: {str(e)[:150]}")
-        return
+    for axes, vn, ow in flat:
+        try:
+            g2.set_metrics(tuple(axes), vn, overwrite=ow)
+        except Exception as e:
+            if ow:
+                ctx.violation("batching-equivalence", f"one-at-a-time replay raised {type(e).__name__}: {str(e)[:150]}")
+                return
     a, b = probe_all(g, ds, cm, desc), probe_all(g2, ds, cm, desc)
     if a != b:
         diff = [k for k in a if a[k] != b.get(k)]
